@@ -808,7 +808,7 @@ theorem step_sim {par : Nat → Sess} {P : Nat → Nat → Nat → Prop} (hp : P
       rfl
     · simp only [Timer.step, waitAck]
       have ho := hr.outs
-      simp only [List.filterMap_cons, obsS, obsM, ho]
+      simp only [List.filterMap_cons, obsS, ho]
       rfl
   | rxAck s mid =>
     obtain ⟨ca, hca, hle⟩ := hi.sess s
@@ -833,5 +833,81 @@ theorem step_sim {par : Nat → Sess} {P : Nat → Nat → Nat → Prop} (hp : P
   | hold s => exact absurd hok (by simp [EvIn])
   | connect s => exact absurd hok (by simp [EvIn])
   | disconnect s => exact absurd hok (by simp [EvIn])
+
+/-! ### whole runs -/
+
+theorem timer_run_append (ts : TS) (a b : List TEv) : Timer.run ts (a ++ b) = Timer.run (Timer.run ts a) b := by
+  simp [Timer.run, List.foldl_append]
+
+/-- where the `send`s of the translated run come from -/
+theorem tr_send {par : Nat → Sess} {P : Nat → Nat → Nat → Prop} (l : L) (ev : Ev) (hi : Inv par P l) (hok : EvIn l ev)
+    (s mid T mx : Nat) (h : TEv.send s mid T mx ∈ tr l ev) :
+    ∃ r, ev = .submit s true mid r ∧ T = calcTimeout (par s).atI (par s).atF (par s).arfI (par s).arfF r ∧
+      mx = (par s).maxRtx := by
+  cases ev with
+  | submit s' c m' r =>
+    obtain ⟨ca, hca, _⟩ := hi.sess s'
+    simp only [tr, List.mem_cons, List.mem_nil_iff, or_false, reduceCtorEq, false_or, TEv.send.injEq] at h
+    obtain ⟨rfl, rfl, rfl, rfl⟩ := h
+    have hc : c = true := hok.1
+    subst hc
+    exact ⟨r, rfl, by rw [hca], by rw [hca]⟩
+  | _ => simp [tr] at h
+
+/-- **run_sim**: the simulation for whole runs -/
+theorem run_sim {par : Nat → Sess} {P : Nat → Nat → Nat → Prop} (hp : ParOk par) :
+    ∀ (evs : List Ev) (l : L) (ts : TS), Inv par P l → Rel (mxOf par) l ts → RunIn l evs →
+      (∀ s mid r, Ev.submit s true mid r ∈ evs → P s mid (calcTimeout (par s).atI (par s).atF (par s).arfI (par s).arfF r)) →
+      Inv par P (Msg.run l evs) ∧ Rel (mxOf par) (Msg.run l evs) (Timer.run ts (trRun l evs)) ∧
+      (∀ s mid T mx, TEv.send s mid T mx ∈ trRun l evs →
+        ∃ r, Ev.submit s true mid r ∈ evs ∧ T = calcTimeout (par s).atI (par s).atF (par s).arfI (par s).arfF r ∧
+          mx = (par s).maxRtx) := by
+  intro evs
+  induction evs with
+  | nil => intro l ts hi hr _ _; exact ⟨hi, hr, by simp [trRun]⟩
+  | cons ev evs ih =>
+    intro l ts hi hr hin hP
+    obtain ⟨hi1, hr1⟩ := step_sim hp l ts ev hi hr hin.1 (fun s mid r h => hP s mid r (by simp [h]))
+    obtain ⟨hi2, hr2, hs2⟩ := ih _ _ hi1 hr1 hin.2 (fun s mid r h => hP s mid r (by simp [h]))
+    simp only [Msg.run, List.foldl_cons, trRun, timer_run_append]
+    refine ⟨hi2, hr2, ?_⟩
+    intro s mid T mx h
+    simp only [List.mem_append] at h
+    rcases h with h | h
+    · obtain ⟨r, rfl, h2, h3⟩ := tr_send l ev hi hin.1 s mid T mx h
+      exact ⟨r, by simp, h2, h3⟩
+    · obtain ⟨r, h1, h2, h3⟩ := hs2 s mid T mx h
+      exact ⟨r, by simp [h1], h2, h3⟩
+
+/-! ### the initial state -/
+
+/-- a session of the scope: established, nothing delayed, socket open, 1 ≤ NSTART, MAX_RETRANSMIT < 256,
+`con_active ≤ NSTART` -/
+def SessOk (se : Sess) : Prop :=
+  se.est = true ∧ se.delayq = [] ∧ se.sockOpen = true ∧ 1 ≤ se.nstart ∧ se.maxRtx < 256 ∧ se.conActive ≤ se.nstart
+
+instance (se : Sess) : Decidable (SessOk se) := by unfold SessOk; infer_instance
+
+/-- the parameters of session `s` -/
+def parOf (sess : List Sess) : Nat → Sess := fun s => sess.getD s {}
+
+theorem parOf_ok (sess : List Sess) (h : ∀ se ∈ sess, SessOk se) (s : Nat) : SessOk (parOf sess s) := by
+  unfold parOf
+  by_cases hs : s < sess.length
+  · have : sess.getD s {} = sess[s] := by simp [List.getD_eq_getElem?_getD, hs]
+    rw [this]; exact h _ (List.getElem_mem hs)
+  · have : sess.getD s {} = {} := by simp [List.getD_eq_getElem?_getD, Nat.le_of_not_lt hs]
+    rw [this]; decide
+
+theorem parOk_of (sess : List Sess) (h : ∀ se ∈ sess, SessOk se) : ParOk (parOf sess) := fun s =>
+  have := parOf_ok sess h s
+  ⟨this.1, this.2.1, this.2.2.1, this.2.2.2.1, this.2.2.2.2.1⟩
+
+theorem inv_init (P : Nat → Nat → Nat → Prop) (now0 : Nat) (sess : List Sess) (h : ∀ se ∈ sess, SessOk se) :
+    Inv (parOf sess) P (Msg.init now0 sess) :=
+  ⟨Nat.zero_le _, fun s => ⟨(parOf sess s).conActive, rfl, (parOf_ok sess h s).2.2.2.2.2⟩, by simp [Msg.init]⟩
+
+theorem rel_init (mx : Nat → Nat) (now0 : Nat) (sess : List Sess) : Rel mx (Msg.init now0 sess) (Timer.init now0) :=
+  ⟨Nat.le_refl _, rfl, rfl⟩
 
 end Coap.Sim
